@@ -146,6 +146,24 @@ Corollary mutating_routes_require_authn :
 Proof. exact (routes_checker_sound _ routes_of_main_go_ok). Qed.
 Print Assumptions mutating_routes_require_authn.
 
+(* ---- the handler chain between the server and the mux (regenerated) ---- *)
+
+(* soundness of the chain checker, for ANY chain: every wrapper may rewrite
+   exactly the parts of the request it writes before calling the inner handler;
+   if no wrapper writes RemoteAddr, the headers, or the whole request, then the
+   request that reaches the mux -- the one Authn decides on -- has the peer
+   address and the cookies of the request the server received *)
+Theorem chain_checker_sound : forall ws r r',
+  check_chain ws = true -> chain_sem ws r r' ->
+  r' "RemoteAddr"%string = r "RemoteAddr"%string /\ r' "Header"%string = r "Header"%string.
+Proof. exact chain_checker_sound_l. Qed.
+Print Assumptions chain_checker_sound.
+
+(* the instance: the chain main.go has NOW (e.g. log(true, mux)) passes *)
+Theorem chain_of_main_go_ok : check_chain Gen.Routes.chain = true.
+Proof. vm_compute. reflexivity. Qed.
+Print Assumptions chain_of_main_go_ok.
+
 (* ---- non-vacuity ---- *)
 
 (* the assumption is satisfiable: the instance used by the correspondence run *)
@@ -173,6 +191,11 @@ Proof. vm_compute. reflexivity. Qed.
 Example ex_generated :
   password (new {| disable_authn := false; enable_loopback_authn := false; root_password := [] |} [97; 98]%N 0)
   = [97; 98]%N.
+Proof. reflexivity. Qed.
+
+(* the chain checker rejects a wrapper that rewrites the peer address *)
+Example ex_chain_bad :
+  check_chain [{| wname := "log"; writes_before := ["RemoteAddr"] |}] = false.
 Proof. reflexivity. Qed.
 
 (* the checker rejects a table with an unwrapped mutating route *)
